@@ -88,7 +88,7 @@ _CONTRACTS = ["contract:layout_util.rotate_array_via_roe_corner_from", "contract
               "contract:Region2D.__init__", "contract:Region1D.__init__"]
 MIN_MONITORS = {"*": dict({c: 1 for c in _CONTRACTS}, **{
     "rotate.array_is_corner_flip": 1, "rotate.commute": 1, "rotate.twice_identity": 1, "rotate.region_in_bounds": 1,
-    "layout.rotated_from_roe_corner": 1, "layout.new_rotated_from.twice": 1, "layout.original_orientation_from": 1,
+    "layout.rotated_from_roe_corner": 1, "layout.new_rotated_from.twice": 1, "layout.new_rotated_from.other_corner": 1, "layout.original_orientation_from": 1,
     "layout.extract_parallel_overscan": 1, "layout.extract_serial_overscan": 1, "layout.extracted_from": 1,
     "array2d.original_orientation": 1, "extract.overlap": 1, "extract.none_when_disjoint": 1,
     "sub.parallel_front": 1, "sub.parallel_front_from_end": 1, "sub.serial_front": 1, "sub.serial_front_from_end": 1,
@@ -401,6 +401,27 @@ def run_rot(ctx, u):
                     ctx.check(all(as_tuple(getattr(lay2, k)) == orig[k] for k in SLOTS) and tuple(lay2.shape_2d) == (H, W),
                               "layout.new_rotated_from.twice", shape=(H, W), corner=c, regions=orig,
                               got=lambda: {k: as_tuple(getattr(lay2, k)) for k in SLOTS})
+                # rotating the layout to ANOTHER corner than the one it was built for: every slot must be rotated by the
+                # requested corner (the region of the once-rotated frame must slice the twice-rotated content)
+                for c2 in CORNERS:
+                    if c2 == c:
+                        continue
+                    ok, lay3 = ctx.guarded("layout.new_rotated_from.other_corner", lay.new_rotated_from, roe_corner=c2)
+                    if not ok:
+                        continue
+                    ra2 = ref_rot(ra, c2)
+                    good3 = tuple(lay3.original_roe_corner) == c2
+                    for k in SLOTS:
+                        src_reg = getattr(lay, k)
+                        reg = getattr(lay3, k)
+                        if src_reg is None:
+                            good3 = good3 and reg is None
+                            continue
+                        g3 = as_tuple(reg)
+                        e3 = ref_rot(ra[src_reg.slice], c2)
+                        good3 = good3 and g3 is not None and inside(g3, H, W) and np.array_equal(ra2[reg.slice], e3)
+                    ctx.check(good3, "layout.new_rotated_from.other_corner", shape=(H, W), built_for=c, rotated_to=c2,
+                              regions={k: as_tuple(getattr(lay, k)) for k in SLOTS}, got=lambda: {k: as_tuple(getattr(lay3, k)) for k in SLOTS})
                 if s == 0:
                     ok, oo = ctx.guarded("layout.original_orientation_from", lay.original_orientation_from, array=ra.copy())
                     if ok:
